@@ -48,6 +48,8 @@ pub struct MockTp {
     pub first_send_delay_ms: Arc<std::sync::atomic::AtomicU64>,
     /// the first send returns this long after its bytes went out (a flush that has to wait)
     pub first_send_linger_ms: Arc<std::sync::atomic::AtomicU64>,
+    /// every 2xx answer to an INVITE returns this long after its bytes went out
+    pub linger_2xx_ms: Arc<std::sync::atomic::AtomicU64>,
 }
 
 impl MockTp {
@@ -63,6 +65,7 @@ impl MockTp {
             fail_send: Arc::new(AtomicBool::new(false)),
             first_send_delay_ms: Default::default(),
             first_send_linger_ms: Default::default(),
+            linger_2xx_ms: Default::default(),
         }
     }
     pub fn tcp(log: WireLog, start: tokio::time::Instant, remote: SocketAddr) -> Self {
@@ -77,6 +80,7 @@ impl MockTp {
             fail_send: Arc::new(AtomicBool::new(false)),
             first_send_delay_ms: Default::default(),
             first_send_linger_ms: Default::default(),
+            linger_2xx_ms: Default::default(),
         }
     }
 }
@@ -125,6 +129,10 @@ impl Transport for MockTp {
         let l = self.first_send_linger_ms.swap(0, Ordering::SeqCst);
         if l > 0 {
             tokio::time::sleep(Duration::from_millis(l)).await;
+        }
+        let l2 = self.linger_2xx_ms.load(Ordering::SeqCst);
+        if l2 > 0 && message.starts_with(b"SIP/2.0 2") && String::from_utf8_lossy(message).contains(" INVITE\r\n") {
+            tokio::time::sleep(Duration::from_millis(l2)).await;
         }
         Ok(())
     }
